@@ -47,6 +47,39 @@ CHECKS.update({
     },
 })
 
+CHECKS.update({
+    "C03": {
+        "technique": "static analysis: abstract evaluation of the compare match over the finite (evaluated x installed) domain (THIR patterns), call-chain origin of Evaluated.ranges, pattern-context analysis of sink_error's boolean results, THIR path rule for the annotation reader",
+        "text": "Decides the structural necessary conditions: compare yields no Update/Delete for ranges=None and Delete only for (absent, present) — exhaustive over the 6 abstract cases; ranges is .ok() of the evaluator result with no defaulting combinator and candidates are mapped one-to-one; sink_error can abort and tolerates only route-query KeyNotFound / unparsable single items; the as-set resolver propagates an unknown as-set. One known finding (malformed annotation => Delete, TODO in source) is listed. Not decided: which errors the IRR returns, irrc internals.",
+        "note": "Trusts rpsl-0.1.1 collect_result(s)/sink_error contract and irrc-0.1.0 error classification (versions pinned by Cargo.lock).",
+        "design_ref": "DESIGN.md §3 C03",
+    },
+    "C09": {
+        "technique": "static analysis: THIR-derived tables (operation requirements, parameter gates, capability URI parser and its inverse) compared with an RFC 6241 §8 reference; control dependence of builder stores on gate success (MIR dominance / Result::map continuation); who-may-construct; success-edge dominance in Session::rpc",
+        "text": "Exact decision of the structural statement in both directions (never more, never less than advertised) by equality with the RFC 6241 §8 reference: 20 Operation impls, 19 gate-table rows, Requirements::check semantics, every gate checks the server's capability set and returns Ok only on the true edge, every gated builder parameter is stored only under its gate's success, operation structs/Url are built only by their builders, nothing is sent unless O::new succeeded, the capability URI parser equals the IANA URN table and its inverse. Not decided: iri-string's URI splitting (trusted).",
+        "note": "Reference tables come from RFC 6241 §8/§10.4 (external to the code). Junos operations are assumed to need only the Junos XML-management capability.",
+        "design_ref": "DESIGN.md §3 C09",
+    },
+    "C15": {
+        "technique": "static analysis: iterator-chain / signature check for isolation; explicit-panic site inventory over the workspace's resolver bodies (MIR) and over the optimized MIR of rpsl's generic Evaluate impls read from dependency metadata (full build), with catch_unwind containment check",
+        "text": "Decides the isolation structure (no early exit, per-candidate .ok()) and lists every explicit not-implemented panic reachable from the per-candidate evaluation: none in the workspace (PeerAS fixed), two todo!() in rpsl-0.1.1's Literal::evaluate recorded as known findings (reproduced with the real binary). Not decided: which expressions an IRR can answer; implicit panics in dependencies.",
+        "note": "Assumes every Resolver/Evaluate impl is reachable by some valid expression; rpsl/irrc pinned by Cargo.lock (keys carry the version).",
+        "design_ref": "DESIGN.md §3 C15",
+    },
+    "C17": {
+        "technique": "static analysis: must-pass-through reachability on MIR (connection restored on every non-unwinding path), who-may-access scan of the conn field",
+        "text": "Decides ONE clause: after a successful take, every return of with_connection passes through self.conn = Some(<the taken connection>), and the connection is touched only there — so a failed evaluation leaves the evaluator usable. The response-attribution clause (responses never attributed to the wrong query, partly consumed pipelines drained) is irrc-0.1.0's run-time logic and is NOT applicable to this technique.",
+        "note": "Trusts irrc-0.1.0's Pipeline drain-on-drop. Unwinding paths are C15's subject.",
+        "design_ref": "DESIGN.md §3 C17",
+    },
+    "C19": {
+        "technique": "static analysis: THIR tables (update equations of the loop-carried back-off, select! arm bodies, signal registrations, Frequency mapping) + must-pass-through reachability on MIR (timer reset between job completion and next tick)",
+        "text": "Decides the three update equations of `backoff` (initial MIN_BACKOFF=60s; Ok: reset(), backoff=MIN_BACKOFF; Err: reset_after(pre-update backoff), backoff=min(period, backoff*k>=2)), that every path from job completion to the next tick resets the timer, that SIGINT/SIGTERM arms break Ok(()), SIGHUP arm calls reset_immediately(), registrations are checked, and 0 => one-shot. The numeric bound follows on paper from the verified equations. Not decided: signal arrival times, tokio Interval semantics (trusted).",
+        "note": "Trusts tokio::time::Interval and tokio::select! documentation.",
+        "design_ref": "DESIGN.md §3 C19",
+    },
+})
+
 NOT_APPLICABLE = {
     "C11": "Equality between a computed prefix-range set and the RPSL denotation over arbitrary IRR data: run-time values in three external crates (rpsl, irrc, generic-ip); no structural necessary condition in this repository's source that is not a frozen copy of today's query plan.",
 }
